@@ -264,29 +264,132 @@ def opRound (args : List String) (impl : String) : Verdict :=
     | _, _ => bad "round"
   | _ => bad "round"
 
+/-- parse one plan item of the canonical form -/
+def parseChunk (t : String) : Option Chunk :=
+  match ((t.drop 1).toString.splitOn "/") with
+  | [node, flags, rs] =>
+    if t.startsWith "P" then
+      match node.toNat?, flags.toList, parseNatList rs with
+      | some node, [r, l, rr], some rs => some (.parent node (r == '1') (l == '1') (rr == '1') rs)
+      | _, _, _ => none
+    else none
+  | [start, size, root, rs] =>
+    if t.startsWith "L" then
+      match start.toNat?, size.toNat?, parseNatList rs with
+      | some start, some size, some rs => some (.leaf start size (root == "1") rs)
+      | _, _, _ => none
+    else none
+  | _ => none
+
+def parsePlan (s : String) : Option (List Chunk) :=
+  if s == "-" then some [] else (s.splitOn " ").mapM parseChunk
+
+/-- well-formedness of a pre-order plan for query `q` on `(size, bs)` with minimum level `ml`
+(`unitLog` = log2 of the largest leaf unit, `respPlan` = response plan: leaves are chunks or
+fully selected groups) -/
+def planPreWF (size bs ml : Nat) (q : Ranges) (plan : List Chunk) : Option String :=
+  let n := Spec.nChunks size
+  let sel := fun c => Spec.selected size q c
+  if (List.range n).all (fun c => !sel c) then
+    (if plan.isEmpty then none else some "empty selection but non-empty plan")
+  else
+  -- 1. stack discipline
+  let stackEnd := plan.foldl (fun (h : Option Nat) c =>
+    match h with
+    | none => none
+    | some h =>
+      if h == 0 then none else
+      match c with
+      | .parent _ _ l r _ => some (h - 1 + (if l then 1 else 0) + (if r then 1 else 0))
+      | .leaf .. => some (h - 1)) (some 1)
+  if stackEnd != some 0 then some s!"hash stack: {repr stackEnd}" else
+  -- 2. root flag exactly on the first item
+  let rootFlags := plan.map fun c => match c with | .parent _ r _ _ _ => r | .leaf _ _ r _ => r
+  if rootFlags != (true :: List.replicate (plan.length - 1) false) then some "root flag" else
+  -- 3. leaves increasing, disjoint, inside the blob
+  let leaves := plan.filterMap fun c => match c with | .leaf s z _ _ => some (s, z) | _ => none
+  let rec incr : List (Nat × Nat) → Bool
+    | (s1, z1) :: (s2, z2) :: rest => decide (s1 + (z1 + 1023) / 1024 ≤ s2) && decide (z1 > 0) && incr ((s2, z2) :: rest)
+    | _ => true
+  if !incr leaves then some "leaves not increasing / overlapping" else
+  if !(leaves.all fun (s, z) => s * 1024 + z ≤ size && (z > 0 || size == 0)) then some "leaf outside the blob" else
+  -- 4. coverage: every selected chunk is in a leaf; every leaf holds a selected chunk;
+  --    leaves are aligned units of at most 2^max(bs, ml) chunks; bigger than a group only if fully selected
+  let covered (c : Nat) : Bool := leaves.any fun (s, z) => s ≤ c && c * 1024 < s * 1024 + max z 1
+  if !((List.range n).all fun c => !sel c || covered c) then some "a selected chunk is not covered" else
+  let unit := 2 ^ max bs ml
+  let leafOk := leaves.all fun (s, z) =>
+    let cnt := max 1 ((z + 1023) / 1024)
+    let hasSel := (List.range cnt).any fun i => sel (s + i)
+    let allSel := (List.range cnt).all fun i => sel (s + i)
+    let aligned := (List.range 64).any fun h => cnt ≤ 2 ^ h && s % 2 ^ h == 0 && 2 ^ h ≤ unit
+    hasSel && aligned && (cnt ≤ 2 ^ bs || allSel)
+  if !leafOk then some "a leaf is not an aligned unit touched by the selection" else
+  -- 5. parents: flags say which halves the selection meets; following items stay inside the node
+  let parentsOk := plan.all fun c =>
+    match c with
+    | .parent node _ l r _ =>
+      let cr := Node.chunkRange node
+      let mid := Node.mid node
+      let meetL := (List.range (mid - cr.1)).any fun i => sel (cr.1 + i)
+      let meetR := (List.range (min cr.2 n - mid)).any fun i => sel (mid + i)
+      l == meetL && r == meetR && decide (mid < n)
+    | _ => true
+  if !parentsOk then some "parent flags" else none
+
+/-- well-formedness of the post-order plan of `(size, bs)` -/
+def planPostWF (size bs : Nat) (plan : List Chunk) : Option String :=
+  let g := 2 ^ bs * 1024
+  let blocks := Spec.nBlocks size bs
+  let leaves := plan.filterMap fun c => match c with | .leaf s z _ _ => some (s, z) | _ => none
+  let wantLeaves := (List.range blocks).map fun i => (i * 2 ^ bs, min g (size - i * g))
+  if leaves != wantLeaves then some "leaves do not tile the blob" else
+  let stackEnd := plan.foldl (fun (h : Option Nat) c =>
+    match h with
+    | none => none
+    | some h =>
+      match c with
+      | .parent .. => if h < 2 then none else some (h - 1)
+      | .leaf .. => some (h + 1)) (some 0)
+  if stackEnd != some 1 then some s!"hash stack: {repr stackEnd}" else
+  let rootFlags := plan.map fun c => match c with | .parent _ r _ _ _ => r | .leaf _ _ r _ => r
+  if rootFlags != (List.replicate (plan.length - 1) false ++ [true]) then some "root flag" else
+  let parents := plan.filterMap fun c => match c with | .parent node _ _ _ _ => some node | _ => none
+  if parents != Spec.persistedPost size bs then some "parents are not the persisted nodes in post-order" else none
+
 /-- `plan size bs minLevel ranges` (pre-order partial), `rplan size bs ranges` (response),
 `pplan size bs` (post-order) -/
-def opPlan (args : List String) (_impl : String) : Verdict :=
+def opPlan (args : List String) (impl : String) : Verdict :=
   match args with
   | [size, bs, ml, rs] =>
     match size.toNat?, bs.toNat?, ml.toNat?, parseNatList rs with
     | some size, some bs, some ml, some rs =>
-      { model := planStr ((⟨size, bs⟩ : Tree).prePartialChunks rs ml) }
+      let sf := match parsePlan impl with
+        | none => some "malformed / panic"
+        | some p => if Spec.nChunks size > 4096 then none else planPreWF size bs ml rs p
+      { model := planStr ((⟨size, bs⟩ : Tree).prePartialChunks rs ml), specFail := sf }
     | _, _, _, _ => bad "plan"
   | _ => bad "plan"
 
-def opRPlan (args : List String) (_impl : String) : Verdict :=
+def opRPlan (args : List String) (impl : String) : Verdict :=
   match args with
   | [size, bs, rs] =>
     match size.toNat?, bs.toNat?, parseNatList rs with
     | some size, some bs, some rs =>
-      { model := planStr ((⟨size, bs⟩ : Tree).responseChunks rs) }
+      let sf := match parsePlan impl with
+        | none => some "malformed / panic"
+        | some p => if Spec.nChunks size > 4096 then none else planPreWF size 0 bs rs p
+      { model := planStr ((⟨size, bs⟩ : Tree).responseChunks rs), specFail := sf }
     | _, _, _ => bad "rplan"
   | _ => bad "rplan"
 
-def opPPlan (args : List String) (_impl : String) : Verdict :=
+def opPPlan (args : List String) (impl : String) : Verdict :=
   match args.mapM (·.toNat?) with
-  | some [size, bs] => { model := planStr (some (⟨size, bs⟩ : Tree).postOrderChunks) }
+  | some [size, bs] =>
+    let sf := match parsePlan impl with
+      | none => some "malformed / panic"
+      | some p => planPostWF size bs p
+    { model := planStr (some (⟨size, bs⟩ : Tree).postOrderChunks), specFail := sf }
   | _ => bad "pplan"
 
 end Bao.Ops
